@@ -8,10 +8,13 @@
   cell pushed on the chain it is given; a function value stores the defining chain itself; `evalCall` uses the
   caller's chain only for the arguments and the callee expression — the body runs on `closure`.
   Renaming: the scope layer and `bindNextName` are equivariant under an injective renaming that fixes `_`
-  (`alpha_equivariance_partial`); the evaluator skeleton is left to the tie (see the comment there).
+  (`alpha_equivariance_partial`, `bindNextName_equivariant`), and — through the whole evaluator, by induction on the
+  fuel over all 23 functions (Lemmas/C04Equiv{Defs,Prim,Eval}.lean) — the run of the renamed program is the renaming
+  of the run: `alpha_equivariance`, with the corollary `renaming_preserves_output`.
 -/
 import SeedProofs.Lemmas.C04Scope
 import SeedProofs.Lemmas.C04Rename
+import SeedProofs.Lemmas.C04EquivEval
 namespace Seed.C04
 open Seed ScopeL
 
@@ -336,19 +339,19 @@ example : evalExpr 1 σ₀ [0] (.mk (.Var c!"x") (1, 0)) = .ok (sv 1) σ₀ ∧
 
 /-! ### consistent renaming
 
-  Full statement (DESIGN.md §6 C04, not proved here):
+  `alpha_equivariance` (below, after the two partial results it grew from): for an injective renaming `π` of variable
+  names that keeps `_`, `this` and `print` apart, the run of the renamed program is the renaming of the run — same
+  addresses, same heap shape, scope cells with renamed keys, function cells with renamed code, the *same printed
+  lines*, the same outcome, and a diagnostic that differs only in the variable name it mentions.
 
-    theorem alpha_equivariance (π : List Char → List Char) (hπ : Function.Injective π)
-        (hfix : π fixes "_", "this", "print" and every `fn`-statement name of `prog`) :
-        run n path (π • prog) = π • run n path prog
-
-  where `π •` renames every `Var`, every `fn` name and parameter, expands object shorthand `{a}` to
-  `{"a": π a}`, and acts on a result only through the name an `Undefined` / `AlreadyInScope` /
-  `AlreadyInBinding` / `DupParamName` diagnostic mentions.  It needs one equivariance lemma per function of
-  the mutual evaluator block (23 functions) plus `applyBinOp`, `eqVal`, `render` (which read the heap but no
-  scope cell).  What is proved: the scope layer and the name binder, i.e. every place where a *name* is
-  compared or stored.  Missing: the induction over the evaluator skeleton, which only passes names through;
-  it is covered by the renaming metamorphism run on the implementation (leg C) and by the run-level tie.
+  The action `Eqv.rStmts π` renames every variable occurrence (`Var`), every parameter and every `fn` statement name.
+  Two kinds of name are not only variables, and `π` has to fix them (`Eqv.okStmts π P prog`):
+    * the name of a `fn name(…)` statement, which `print(f)` and stack traces show;
+    * a name used in object shorthand `{a}` (expression or pattern), which is also the property key — the harness
+      expands `{a}` to `{"a": a'}` instead, which is the same program up to one evaluation step of fuel.
+  Interpolation slots are parsed from the text of the literal at run time, so no action on syntax trees reaches
+  them: `P` is any set of slot expressions that `π` leaves alone (`hP`); `P := fun _ => False` covers programs
+  without slots.
 -/
 
 /-- the scope layer is equivariant: renaming the keys of every scope cell with an injective `π` and looking
@@ -397,5 +400,109 @@ example : ∃ π : List Char → List Char, (∀ a b, π a = π b → a = b) ∧
       cases a with
       | nil => simp at h
       | cons c r => simp at this
+
+
+/-! ### the full theorem -/
+
+open Eqv in
+/-- **Consistent renaming never changes what a program prints**: the whole run of the renamed program is the renaming
+    of the run.  (`Eqv.rRes π id` keeps the result value, renames the final state — which leaves `out` untouched — and
+    renames the variable name inside the diagnostic.) -/
+theorem alpha_equivariance (π : List Char → List Char) (P : Expr → Prop)
+    (hπ : ∀ a b, π a = π b → a = b) (hu : ∀ a, π a = c!"_" ↔ a = c!"_")
+    (hthis : π c!"this" = c!"this") (hprint : π c!"print" = c!"print")
+    (hP : ∀ ast, P ast → rExpr π ast = ast ∧ okExpr π P ast)
+    (n : Nat) (prog : List Stmt) (hok : okStmts π P prog) :
+    evalProg n (rStmts π prog) = rRes π id (evalProg n prog) :=
+  evalProg_ren hπ hu hthis hP hprint n prog hok
+
+/-- what `seed` shows of a run: the printed lines and whether it succeeded / failed / crashed / ran out of fuel -/
+def observable : Res Unit → List (List Char) × Nat
+  | .ok _ σ => (σ.out, 0)
+  | .err _ σ => (σ.out, 103)
+  | .crash _ σ => (σ.out, 101)
+  | .timeout => ([], 1)
+
+open Eqv in
+/-- the printed lines and the exit status of the renamed program are those of the program -/
+theorem renaming_preserves_output (π : List Char → List Char) (P : Expr → Prop)
+    (hπ : ∀ a b, π a = π b → a = b) (hu : ∀ a, π a = c!"_" ↔ a = c!"_")
+    (hthis : π c!"this" = c!"this") (hprint : π c!"print" = c!"print")
+    (hP : ∀ ast, P ast → rExpr π ast = ast ∧ okExpr π P ast)
+    (n : Nat) (prog : List Stmt) (hok : okStmts π P prog) :
+    observable (evalProg n (rStmts π prog)) = observable (evalProg n prog) := by
+  rw [alpha_equivariance π P hπ hu hthis hprint hP n prog hok]
+  cases evalProg n prog <;> rfl
+
+open Eqv in
+/-- … and the diagnostic is the same up to the renamed variable name -/
+theorem renaming_renames_diagnostic (π : List Char → List Char) (P : Expr → Prop)
+    (hπ : ∀ a b, π a = π b → a = b) (hu : ∀ a, π a = c!"_" ↔ a = c!"_")
+    (hthis : π c!"this" = c!"this") (hprint : π c!"print" = c!"print")
+    (hP : ∀ ast, P ast → rExpr π ast = ast ∧ okExpr π P ast)
+    (n : Nat) (prog : List Stmt) (hok : okStmts π P prog) (e : Err) (σ : State)
+    (h : evalProg n prog = .err e σ) :
+    evalProg n (rStmts π prog) = .err (rErr π e) (rSt π σ) := by
+  rw [alpha_equivariance π P hπ hu hthis hprint hP n prog hok, h]; rfl
+
+/-! the hypotheses are satisfiable: the renaming that swaps `a` and `b`, and the program
+
+        a := 1
+        fn f(p) { return p + a; }
+        print(f(2))                                                                                  -/
+
+def swapAB (x : List Char) : List Char := if x = c!"a" then c!"b" else if x = c!"b" then c!"a" else x
+
+theorem swapAB_invol (x : List Char) : swapAB (swapAB x) = x := by
+  unfold swapAB
+  by_cases h1 : x = c!"a"
+  · simp [h1]
+  · by_cases h2 : x = c!"b"
+    · simp [h2]
+    · simp [h1, h2]
+
+def progEx : List Stmt :=
+  [ .Declare (.mk (.Var c!"a") (1, 0)) (.mk (.Int 1) (1, 5)),
+    .Func c!"f" (2, 3) [.mk (.Var c!"p") (2, 5)] false
+      [.Return (2, 10) (.mk (.BinaryOp .Sum (2, 19) (.mk (.Var c!"p") (2, 17)) (.mk (.Var c!"a") (2, 21))) (2, 17))],
+    .Expr (.mk (.Call (.mk (.Var c!"print") (3, 0))
+      [.mk (.mk (.Call (.mk (.Var c!"f") (3, 6)) [.mk (.mk (.Int 2) (3, 8)) false]) (3, 6)) false]) (3, 0)) ]
+
+example : (∀ a b, swapAB a = swapAB b → a = b) ∧ (∀ a, swapAB a = c!"_" ↔ a = c!"_") ∧
+    swapAB c!"this" = c!"this" ∧ swapAB c!"print" = c!"print" ∧
+    (∀ ast, (fun _ => False) ast → Eqv.rExpr swapAB ast = ast ∧ Eqv.okExpr swapAB (fun _ => False) ast) ∧
+    Eqv.okStmts swapAB (fun _ => False) progEx ∧
+    (Eqv.rStmts swapAB progEx).head? = some (.Declare (.mk (.Var c!"b") (1, 0)) (.mk (.Int 1) (1, 5))) := by
+  refine ⟨?_, ?_, by decide, by decide, fun _ h => h.elim, ?_, ?_⟩
+  · intro a b h
+    have := congrArg swapAB h
+    rwa [swapAB_invol, swapAB_invol] at this
+  · intro a
+    constructor
+    · intro h
+      have := congrArg swapAB h
+      rw [swapAB_invol] at this
+      rw [this]; decide
+    · intro h; rw [h]; decide
+  · simp only [progEx, Eqv.okStmts, Eqv.okStmt, Eqv.okExpr, Eqv.okRaw, Eqv.okExprs, Eqv.okItems, Eqv.okItem, and_self]
+    decide
+  · simp only [progEx, Eqv.rStmts, Eqv.rStmt, Eqv.rExpr, Eqv.rRaw, List.head?]
+    rfl
+
+/-- the instance: running `progEx` with `a` and `b` swapped prints the same lines -/
+example (n : Nat) : observable (evalProg n (Eqv.rStmts swapAB progEx)) = observable (evalProg n progEx) := by
+  refine renaming_preserves_output swapAB (fun _ => False) ?_ ?_ (by decide) (by decide) (fun _ h => h.elim) n progEx ?_
+  · intro a b h
+    have := congrArg swapAB h
+    rwa [swapAB_invol, swapAB_invol] at this
+  · intro a
+    constructor
+    · intro h
+      have := congrArg swapAB h
+      rw [swapAB_invol] at this
+      rw [this]; decide
+    · intro h; rw [h]; decide
+  · simp only [progEx, Eqv.okStmts, Eqv.okStmt, Eqv.okExpr, Eqv.okRaw, Eqv.okExprs, Eqv.okItems, Eqv.okItem, and_self]
+    decide
 
 end Seed.C04
